@@ -67,9 +67,9 @@ PROPS = {
     "C10": dict(functions=[(VP, r"_validate.*", ".*"), ("fastavro/_schema_py.py", r"schema_name", ".*"),
                            (W, r"Writer\.write", "validating")],
                 lemmas=[], bounded="C10", level="other"),
-    # C11: only the name rule (schema_name: full name from name / namespace / enclosing namespace) is under contract;
+    # C11: the name rule (schema_name) and the default-kind rule (_default_matches_schema) are under contract;
     # parse_schema itself is bounded -- the level stays exploration
-    "C11": dict(functions=[("fastavro/_schema_py.py", r"schema_name", "default")], lemmas=[], bounded="C11", level="exploration"),
+    "C11": dict(functions=[("fastavro/_schema_py.py", r"(schema_name|_default_matches_schema|_maybe_float)", "default")], lemmas=[], bounded="C11", level="exploration"),
     # C12: only the already-parsed path of parse_schema is under contract; the equivalence of the forms is bounded
     "C12": dict(functions=[("fastavro/_schema_py.py", r"parse_schema", "parsed")], lemmas=[], bounded="C12", level="exploration"),
     # C13: the recursive canonical-form writer against PCF (spec/canon.py) on parsed schemas; parse_schema (full
